@@ -8,7 +8,7 @@ from typing import Any, Dict, List, Optional, Set, Tuple
 from .. import linexpr as lx
 from ..core import AnalysisError, Report
 from ..linexpr import Env, py_ir, to_lin
-from ..pyfacts import Repo, cc, cn, eval_int_expr, membership_searches, normalize_indexed_loops, inline_module_constants, expand_private_calls, normalize_counting_whiles, inline_block, inline_predicates, canon_cond, push_not, calls, dotted, fold, norm, raise_guards, raised_class, walk_no_nested
+from ..pyfacts import Repo, attribute_copies, cc, cn, element_rejections, inline_adjacent_temps, normalize_sorted_sweeps, eval_int_expr, membership_searches, normalize_indexed_loops, inline_module_constants, expand_private_calls, normalize_counting_whiles, inline_block, inline_predicates, canon_cond, push_not, calls, dotted, fold, norm, raise_guards, raised_class, walk_no_nested
 
 W = 'flipjump/fjm/fjm_writer.py'
 R = 'flipjump/fjm/fjm_reader.py'
@@ -113,7 +113,7 @@ def rule_formats(rep: Report, repo: Repo) -> None:
                       expected='format imported from fjm_consts, or the per-width word code')
     tabs = {}
     for rel, fn in ((R, 'Reader._read_decompressed_data'), (W, 'Writer.write_to_file')):
-        f = repo.func(rel, fn)
+        f = expand_private_calls(repo, rel, repo.func(rel, fn), fn.split('.')[0], depth=2)        # extracted pack / unpack helpers read in place
         d = [n for n in ast.walk(f) if isinstance(n, ast.Dict) and n.keys and all(isinstance(k, ast.Constant) for k in n.keys)]
         if not d:
             raise AnalysisError(f'{fn}: word-code table missing')
@@ -128,17 +128,19 @@ def rule_formats(rep: Report, repo: Repo) -> None:
 def rule_fields(rep: Report, repo: Repo) -> None:
     rep.rule('C06.FIELDS', 'the field roles are packed and destructured in the same order: (magic, width, version, '
              '#segments) / (flags, reserved) / (start, length, data_start, data_length)', 4)
-    wf = repo.func(W, 'Writer.write_to_file')
+    wf = expand_private_calls(repo, W, repo.func(W, 'Writer.write_to_file'), 'Writer', depth=2)
     packs = {norm(c.args[0]): [norm(a) for a in c.args[1:]] for c in calls(wf) if dotted(c.func) == 'pack' and isinstance(c.args[0], ast.Name)}
     rep.check(packs.get('_header_base_format') == ['FJ_MAGIC', 'self.word_size', 'self.version.value', 'len(self.segments)'],
               'C06.FIELDS', 'writer:header', str(packs.get('_header_base_format')), f'{W}:{wf.lineno}')
     rep.check(packs.get('_header_extension_format') == ['self.flags', 'self.reserved'], 'C06.FIELDS', 'writer:extension',
               str(packs.get('_header_extension_format')), f'{W}:{wf.lineno}')
-    rh = repo.func(R, 'Reader._init_header_fields')
+    rh = inline_adjacent_temps(repo.func(R, 'Reader._init_header_fields'))
+    copies = attribute_copies(rh)            # a field unpacked into a local that is only copied to self.<field> reads as that attribute
     tg = {}
     for st in ast.walk(rh):
         if isinstance(st, ast.Assign) and isinstance(st.value, ast.Call) and dotted(st.value.func) == 'unpack':
-            tg[norm(st.value.args[0])] = [norm(e) for e in st.targets[0].elts] if isinstance(st.targets[0], ast.Tuple) else [norm(st.targets[0])]
+            tgts = st.targets[0].elts if isinstance(st.targets[0], ast.Tuple) else [st.targets[0]]
+            tg[norm(st.value.args[0])] = [copies.get(norm(e), norm(e)) for e in tgts]
     rep.check(tg.get('_header_base_format') == ['self.magic', 'self.memory_width', 'version', 'self.segment_num']
               and tg.get('_header_extension_format') == ['self.flags', 'self.reserved'], 'C06.FIELDS', 'reader:header+extension',
               str(tg), f'{R}:{rh.lineno}')
@@ -160,19 +162,25 @@ def rule_version_gates(rep: Report, repo: Repo) -> None:
     def tests(rel: str, fn: str) -> List[str]:
         # a private predicate method (`self._is_relative_jumps_version()`) stands for the expression it returns
         return [norm(inline_module_constants(repo, rel, inline_predicates(repo, rel, fn.split('.')[0] if '.' in fn else None, n.test)))
-                for n in ast.walk(repo.func(rel, fn)) if isinstance(n, ast.If)]
-    w_ext = [t for t in tests(W, 'Writer.write_to_file') if 'BaseVersion' in t]
-    r_ext = [t for t in tests(R, 'Reader._init_header_fields') if 'BaseVersion' in t]
-    rep.check(w_ext == ['FJMVersion.BaseVersion != self.version'] and r_ext == ['FJMVersion.BaseVersion == self.version'],
-              'C06.VERSION-GATES', 'extension-header', f'writer {w_ext} reader {r_ext}', W,
-              expected='written iff version != Base; read iff version != Base')
-    # the reader's == branch must be the "no extension" branch
-    rh = repo.func(R, 'Reader._init_header_fields')
-    for n in ast.walk(rh):
-        if isinstance(n, ast.If) and 'BaseVersion' in norm(n.test):
-            ok = not any(isinstance(c, ast.Call) and dotted(c.func) == 'unpack' for s in n.body for c in ast.walk(s)) and \
-                any(isinstance(c, ast.Call) and dotted(c.func) == 'unpack' for s in n.orelse for c in ast.walk(s))
-            rep.check(ok, 'C06.VERSION-GATES', 'reader:extension-branch', 'Base -> defaults, else unpack', f'{R}:{n.lineno}')
+                for n in ast.walk(expand_private_calls(repo, rel, repo.func(rel, fn), fn.split('.')[0] if '.' in fn else None, depth=2))
+                if isinstance(n, ast.If)]
+    # the extension header is packed / unpacked exactly when the version is known to differ from Base - whichever branch,
+    # comparison direction or nesting spells the gate (facts dominating the pack / unpack call)
+    from ..excflow import GuardFacts, dominating_guards
+    wfx = expand_private_calls(repo, W, repo.func(W, 'Writer.write_to_file'), 'Writer', depth=2)
+    rhx = expand_private_calls(repo, R, repo.func(R, 'Reader._init_header_fields'), 'Reader', depth=2)
+    def ext_sites(fn: ast.AST, fname: str) -> List[ast.Call]:
+        return [c for c in ast.walk(fn) if isinstance(c, ast.Call) and dotted(c.func) == fname and c.args and norm(c.args[0]) == '_header_extension_format']
+    w_sites, r_sites = ext_sites(wfx, 'pack'), ext_sites(rhx, 'unpack')
+    w_ext = [GuardFacts(dominating_guards(c)).get('self.version == FJMVersion.BaseVersion') for c in w_sites]
+    r_ext = [GuardFacts(dominating_guards(c)).get('self.version == FJMVersion.BaseVersion') for c in r_sites]
+    rep.check(w_ext == [False] and r_ext == [False], 'C06.VERSION-GATES', 'extension-header', f'writer packs it under version==Base known {w_ext}; '
+              f'reader unpacks it under version==Base known {r_ext}', W, expected='written iff version != Base; read iff version != Base')
+    # the reader's Base branch sets the defaults instead
+    dflt = [st for st in ast.walk(rhx) if isinstance(st, ast.Assign) and any('self.flags' in norm(t) for t in st.targets) and not
+            any(isinstance(c, ast.Call) and dotted(c.func) == 'unpack' for c in ast.walk(st.value))]
+    ok = bool(dflt) and all(GuardFacts(dominating_guards(st)).get('self.version == FJMVersion.BaseVersion') is True for st in dflt)
+    rep.check(ok, 'C06.VERSION-GATES', 'reader:extension-branch', 'Base -> defaults, else unpack', f'{R}:{rhx.lineno}')
     # version tests of add_segment and of the validation helpers it goes through (whatever they are called)
     w_rel = [t for q in ['Writer.add_segment'] + [f'Writer.{v}' for v in sorted(writer_validator_calls(repo, 'Writer.add_segment'))
                                                   if repo.has_func(W, f'Writer.{v}')]
@@ -326,13 +334,18 @@ def rule_lzma(rep: Report, repo: Repo) -> None:
     PRESET_DICT = [1 << 18, 1 << 20, 1 << 21, 1 << 22, 1 << 22, 1 << 23, 1 << 23, 1 << 24, 1 << 25, 1 << 26]
     wi = repo.func(W, 'Writer.__init__')
     allowed = None
+    from ..pyfacts import push_not
     for test, r, _outer in raise_guards(wi):
-        t = norm(test)
-        if t.startswith('lzma_preset not in range(') and raised_class(r) == 'FlipJumpWriteFjmException':
-            try:
-                allowed = range(*[int(x) for x in t[len('lzma_preset not in range('):-1].split(',')])
-            except ValueError:
-                allowed = None
+        if raised_class(r) != 'FlipJumpWriteFjmException':
+            continue
+        # any conjunct of the (negation-normalised) raise condition of the form `lzma_preset not in range(<literals>)`
+        nn = push_not(test)
+        conj = list(nn.values) if isinstance(nn, ast.BoolOp) and isinstance(nn.op, ast.And) else [nn]
+        for cj in conj:
+            if isinstance(cj, ast.Compare) and len(cj.ops) == 1 and isinstance(cj.ops[0], ast.NotIn) and norm(cj.left) == 'lzma_preset' \
+                    and isinstance(cj.comparators[0], ast.Call) and dotted(cj.comparators[0].func) == 'range' \
+                    and all(isinstance(a, ast.Constant) and isinstance(a.value, int) for a in cj.comparators[0].args):
+                allowed = range(*[a.value for a in cj.comparators[0].args])      # type: ignore[attr-defined]
     if allowed is None:
         raise AnalysisError('C06.LZMA: the Writer no longer validates lzma_preset against a literal range')
     comp_keys = {k.value for d in ast.walk(ret) if isinstance(d, ast.Dict) for k in d.keys if isinstance(k, ast.Constant)}
@@ -362,11 +375,24 @@ def writer_validated(repo: Repo) -> Tuple[Set[str], Dict[str, str]]:
             for v in classify_guard(test):
                 got.add(v)
                 where[v] = f'{W}:{test.lineno} {fn}'
-            t = norm(test).replace(' ', '')
-            if fn in ('Writer.add_data', 'Writer.write_to_file') and ('<0' in t or '0<=' in t or '>=(1<<' in t or '>>self.word_size' in t
-                                                                      or 'word_mask' in t or '>>' in t):
-                got.add('V10')
-                where['V10'] = f'{W}:{test.lineno} {fn}'
+        if fn in ('Writer.add_data', 'Writer.write_to_file'):
+            # V10: SOME word outside [0, 2^w) is rejected - the element predicate, however the search is spelled, is folded on a grid
+            for seq in ('data', 'self.data'):
+                for var, pred, rz in element_rejections(f, seq):
+                    if raised_class(rz) != 'FlipJumpWriteFjmException':
+                        continue
+                    agree = True
+                    for wv in (8, 16, 64):
+                        for x in (-5, -1, 0, 1, (1 << wv) - 1, 1 << wv, (1 << wv) + 7):
+                            try:
+                                gotv = bool(eval_int_expr(pred, {var: x, 'self.word_size': wv}))
+                            except AnalysisError:
+                                agree = False
+                                break
+                            agree = agree and gotv == (x < 0 or x >= (1 << wv))
+                    if agree:
+                        got.add('V10')
+                        where['V10'] = f'{W}:{rz.lineno} {fn}'
         if fn == 'Writer.add_segment':
             reached = writer_validator_calls(repo, fn)
             if '_validate_segment_addresses_not_overlapping' in reached:
@@ -391,6 +417,7 @@ def reader_rejected(repo: Repo) -> Tuple[Set[str], Dict[str, str]]:
     bodies = [f] + [repo.func(R, f'Reader.{dotted(c.func).split(".")[1]}') for c in calls(f)
                     if dotted(c.func).startswith('self._') and repo.has_func(R, f'Reader.{dotted(c.func).split(".")[1]}')]
     for hf in bodies:
+        hf = normalize_sorted_sweeps(hf)
         tests = [cn(t) for t, r, _ in raise_guards(hf) if raised_class(r) == 'FlipJumpReadFjmException']
         srt = any(isinstance(x, ast.Call) and dotted(x.func) == 'sorted' for x in ast.walk(hf))
         if srt and cc('start2 < end1') in tests:
@@ -442,13 +469,16 @@ def rule_overlap(rep: Report, repo: Repo) -> None:
             any(v == f'{s} + {l} - 1' for k, v in ends.items() if not k.startswith('new_')) and \
             cs[0][1] == [k for k, v in ends.items() if v == f'{s} + {l} - 1'][0] and cs[0][3] == new_end[0] and cs[0][0] == s and cs[0][2] == f'new_{s}'
         if 'data' in fn_name:
-            skips = [norm(n.test) for n in ast.walk(fn) if isinstance(n, ast.If) and isinstance(n.body[0], (ast.Return, ast.Continue))]
-            ok = ok and skips == ['new_data_length == 0', 'data_length == 0']
+            # empty data ranges never collide: at the raise both lengths are known non-zero (early return / continue / a conjunct)
+            from ..excflow import GuardFacts, dominating_guards
+            raises = [r for r in ast.walk(fn) if isinstance(r, ast.Raise)]
+            ok = ok and bool(raises) and all(GuardFacts(dominating_guards(r)).get('new_data_length != 0') is True and
+                                             GuardFacts(dominating_guards(r)).get('data_length != 0') is True for r in raises)
         rep.check(ok, 'C06.OVERLAP', fn_name, f'ends {ends}; call {cs}', f'{W}:{fn.lineno}', expected='inclusive end = start + length - 1')
     if repo.has_func(R, 'Reader._validate_segments_not_overlapping'):
-        hf = repo.func(R, 'Reader._validate_segments_not_overlapping')
+        hf = normalize_sorted_sweeps(repo.func(R, 'Reader._validate_segments_not_overlapping'))
         srt = [norm(st.value) for st in ast.walk(hf) if isinstance(st, ast.Assign) and isinstance(st.value, ast.Call) and dotted(st.value.func) == 'sorted']
-        tests = [norm(t).replace(' ', '') for t, r, _ in raise_guards(hf)]
+        tests = ['start2<end1' if cn(t) == cc('start2 < end1') else norm(t).replace(' ', '') for t, r, _ in raise_guards(hf)]
         zipped = any(isinstance(n, ast.For) and 'zip(' in norm(n.iter) and '[1:]' in norm(n.iter) for n in ast.walk(hf))
         rep.check(srt == ['sorted(((start, start + length) for start, length, _, _ in segments))'] and tests == ['start2<end1'] and zipped,
                   'C06.OVERLAP', 'Reader._validate_segments_not_overlapping', f'{srt} {tests}', f'{R}:{hf.lineno}',
